@@ -56,12 +56,13 @@ var specialTop = map[string]bool{"Transactions": true, "Sign": true, "FailedTxs"
 
 type getter func(b *pb.InternalBlock) reflect.Value
 
-func bitPositions(nbytes int, tier core.Tier) []int {
+// bitPositions: every bit when dense, else first, middle and last bit.
+func bitPositions(nbytes int, dense bool) []int {
 	n := nbytes * 8
 	if n == 0 {
 		return nil
 	}
-	if tier == core.Thorough {
+	if dense {
 		out := make([]int, n)
 		for i := range out {
 			out[i] = i
@@ -78,8 +79,8 @@ func bitPositions(nbytes int, tier core.Tier) []int {
 }
 
 // byteOps lists the edits of one byte string.
-func byteOps(cur []byte, tier core.Tier) (names []string, fns []func([]byte) []byte) {
-	for _, p := range bitPositions(len(cur), tier) {
+func byteOps(cur []byte, dense bool) (names []string, fns []func([]byte) []byte) {
+	for _, p := range bitPositions(len(cur), dense) {
 		p := p
 		names = append(names, fmt.Sprintf("flip:%d", p))
 		fns = append(fns, func(x []byte) []byte {
@@ -133,7 +134,8 @@ func stripIdx(path string) string {
 }
 
 type walker struct {
-	tier         core.Tier
+	dense        bool // every bit of every header byte string
+	denseSig     bool // every bit of the block signature
 	out          []*mutant
 	unclassified map[string]bool
 }
@@ -195,7 +197,7 @@ func (w *walker) walkStruct(sample reflect.Value, get getter, path string) {
 		case reflect.Bool:
 			w.emitHeader(p, "not", func(b *pb.InternalBlock) { v := gf(b); v.SetBool(!v.Bool()) })
 		case reflect.String:
-			names, fns := byteOps([]byte(fv.String()), w.tier)
+			names, fns := byteOps([]byte(fv.String()), w.dense)
 			for k := range names {
 				fn := fns[k]
 				w.emitHeader(p, names[k], func(b *pb.InternalBlock) { v := gf(b); v.SetString(string(fn([]byte(v.String())))) })
@@ -204,7 +206,7 @@ func (w *walker) walkStruct(sample reflect.Value, get getter, path string) {
 			et := fv.Type().Elem()
 			switch {
 			case et.Kind() == reflect.Uint8:
-				names, fns := byteOps(fv.Bytes(), w.tier)
+				names, fns := byteOps(fv.Bytes(), w.dense)
 				for k := range names {
 					fn := fns[k]
 					w.emitHeader(p, names[k], func(b *pb.InternalBlock) { v := gf(b); v.SetBytes(fn(v.Bytes())) })
@@ -281,6 +283,17 @@ func (w *walker) walkStruct(sample reflect.Value, get getter, path string) {
 	}
 }
 
+// pubkeyJSON: edits of the proposer key that keep it well-formed JSON (a
+// coordinate renamed away, another curve name).
+func (w *walker) pubkeyJSON() {
+	for _, r := range [][2]string{{`"X":`, `"Z":`}, {`"Y":`, `"Z":`}, {`"Curvname":"P-256"`, `"Curvname":"P-384"`}, {`"Curvname":`, `"Curvnam":`}} {
+		r := r
+		w.emitHeader("Pubkey", "json:"+strings.Trim(r[0], `":`)+"->"+strings.Trim(r[1], `":`), func(b *pb.InternalBlock) {
+			b.Pubkey = []byte(strings.Replace(string(b.Pubkey), r[0], r[1], 1))
+		})
+	}
+}
+
 func sortedKeys(m map[string]string) []string {
 	ks := make([]string, 0, len(m))
 	for k := range m {
@@ -295,7 +308,7 @@ func (w *walker) failedTxs(base *pb.InternalBlock) {
 	ks := sortedKeys(base.FailedTxs)
 	for _, k := range ks {
 		k := k
-		names, fns := byteOps([]byte(base.FailedTxs[k]), w.tier)
+		names, fns := byteOps([]byte(base.FailedTxs[k]), w.dense)
 		for i := range names {
 			fn := fns[i]
 			op := names[i]
@@ -501,7 +514,7 @@ func (w *walker) body(base *pb.InternalBlock, foreign *pb.Transaction) {
 
 // signature and signer
 func (w *walker) signer(base *pb.InternalBlock) {
-	names, fns := byteOps(base.Sign, core.Thorough) // every bit in both tiers
+	names, fns := byteOps(base.Sign, w.denseSig)
 	for i := range names {
 		fn := fns[i]
 		w.out = append(w.out, &mutant{id: "sig|" + names[i], class: "signature_bits", key: "corrupted_signature_accepted", what: "block signature edited (" + names[i] + ")",
@@ -544,9 +557,16 @@ func (w *walker) signer(base *pb.InternalBlock) {
 }
 
 // mutants lists every single mutation of one base block.
-func (f *fixture) mutants(base *pb.InternalBlock, tier core.Tier) []*mutant {
-	w := &walker{tier: tier, unclassified: map[string]bool{}}
+// Bit flips are dense (every bit) for header fields in the thorough tier on the
+// one-transaction bases (header edits do not depend on the body), and for the
+// block signature on every base in the thorough tier / on the bases without
+// justify and failed-tx map in the quick tier; first, middle and last bit elsewhere.
+func (f *fixture) mutants(base *pb.InternalBlock, s BaseSpec, tier core.Tier) []*mutant {
+	w := &walker{unclassified: map[string]bool{}}
+	w.dense = tier == core.Thorough && s.N == 1
+	w.denseSig = tier == core.Thorough || (s.Justify < 0 && s.Failed == 0)
 	w.walkStruct(reflect.ValueOf(base).Elem(), func(b *pb.InternalBlock) reflect.Value { return reflect.ValueOf(b).Elem() }, "")
+	w.pubkeyJSON()
 	w.failedTxs(base)
 	w.shifts(base)
 	w.body(base, f.foreign)
